@@ -16,7 +16,7 @@ def rand_name(rng, used, maxlen=24):
         used.add(key); return n
     raise ValueError("name space exhausted")
 
-def rand_chm(rng, big=False, nfiles=None, sec1=True):
+def rand_chm(rng, big=False, nfiles=None, sec1=True, far_reset=False):
     """returns (chm bytes, expect dict, params dict)"""
     used = set()
     nf = nfiles if nfiles is not None else rng.choice([1, 3, 8, 40, 150] if not big else [300, 700])
@@ -30,6 +30,10 @@ def rand_chm(rng, big=False, nfiles=None, sec1=True):
         for ext in (b".x", "\U0001F600".encode(), b"a"):
             n = base + ext; key = tuple(chmfmt.sort_key(n)[0])
             if key not in used: used.add(key); f0.append((n, b"ext")); break
+    # names that do not start with a slash (real CHMs have #SYSTEM, $FIftiMain, ...), some of them empty files
+    for nm in rng.sample([b"#SYSTEM", b"#STRINGS", b"#IDXHDR", b"#URLTBL", b"$FIftiMain", b"$OBJINST", b"$WWKeywordLinks/Property", b"#x", b"$$", b"index.hhc", b"a/b"], rng.choice([0, 2, 4])):
+        key = tuple(chmfmt.sort_key(nm)[0])
+        if key not in used: used.add(key); f0.append((nm, bytes(rng.randrange(256) for _ in range(rng.choice([0, 0, 5, 300])))))
     # pairs differing only in a final supplementary-plane character
     for i in range(rng.choice([0, 1, 2])):
         base = f0[rng.randrange(len(f0))][0]
@@ -37,7 +41,11 @@ def rand_chm(rng, big=False, nfiles=None, sec1=True):
             n = base + ch.encode(); key = tuple(chmfmt.sort_key(n)[0])
             if key not in used: used.add(key); f0.append((n, ch.encode()))
     f1 = []
-    if sec1 and rng.random() < 0.8:
+    if far_reset:
+        # reset points whose compressed offset needs more than 16 bits, addressed through 4-byte reset-table entries
+        sizes = [70000, 65536, rng.choice([20000, 40000]), 300]
+        for i, sz in enumerate(sizes): f1.append((rand_name(rng, used), sz))
+    elif sec1 and rng.random() < 0.8:
         sizes = [rng.choice([0, 1, 5, 300, 20000, 32768, 40000, 65536, 70000]) for _ in range(rng.randrange(1, 5))]
         for i, sz in enumerate(sizes): f1.append((rand_name(rng, used), sz))
     dirs = [rand_name(rng, used) + b"/" for _ in range(rng.choice([0, 1, 3]))]
@@ -45,6 +53,7 @@ def rand_chm(rng, big=False, nfiles=None, sec1=True):
              reset_frames=rng.choice([1, 2, 4]), version=rng.choice([1, 2, 3]), rt_entry_size=rng.choice([8, 8, 4]), control_version=rng.choice([1, 2]),
              content_last=rng.random() < 0.7, with_rtable=rng.random() < 0.8, with_index=rng.random() < 0.8)
     # long system names need a chunk that can hold them
+    if far_reset: p.update(rt_entry_size=4, with_rtable=True, reset_frames=rng.choice([1, 2]), lzx_match_p=0.01)
     if f1 and p["chunk_size"] < 200: p["chunk_size"] = 200
     chm, exp = chmfmt.build(f0, f1, rng, dirs=dirs, **p)
     return chm, exp, p
